@@ -91,6 +91,34 @@ def isQuorum (quorum : Dec.D) (votes totalVoters : Nat) : Option Bool :=
   else if quorum > Dec.one then none
   else some (decide (Dec.ofInt votes ≥ Dec.mul (Dec.ofInt totalVoters) quorum))
 
+/-! ### proposals with a local electorate (`VotePermission() == PermZero`): the owners of a spending pool or collective -/
+
+/-- every element once (the first of two equal elements is dropped) -/
+def distinct : List Nat → List Nat
+  | [] => []
+  | x :: xs => if x ∈ xs then distinct xs else x :: distinct xs
+
+/-- the electorate: the distinct owners - named by account, or as members of a whitelisted role, or both -, counted as 1 when
+there is none (`processProposal`: `if totalVoters == 0 { totalVoters = 1 }`) -/
+def localElectorate (accounts roleMembers : List Nat) : Nat :=
+  let n := (distinct (accounts ++ roleMembers)).length
+  if n = 0 then 1 else n
+
+/-- `processProposal` for such a proposal: electorate and quorum come from the STORED object (the handler's
+`AllowedAddresses` and `Quorum`), never from the proposal's content; nobody holds a veto here. `none` = panic. -/
+def localResult (tally : Nat → Nat → Nat → Nat → Nat → Nat → Tally) (storedQuorum : Dec.D)
+    (accounts roleMembers : List Nat) (yes no abstain veto other : Nat) : Option Res :=
+  let votes := yes + no + abstain + veto + other
+  match isQuorum storedQuorum votes (localElectorate accounts roleMembers) with
+  | none => none
+  | some false => some .quorumNotReached
+  | some true =>
+    some (match tally yes no abstain veto 0 votes with
+          | .passed => .enactment
+          | .rejected => .rejected
+          | .rejectedWithVeto => .rejectedWithVeto
+          | .unknown => .unknown)
+
 def countOpt (vs : List Vote) (o : Nat) : Nat := (vs.filter (·.option == o)).length
 
 def insertKey (k : Nat × Nat) : List (Nat × Nat) → List (Nat × Nat)
